@@ -189,6 +189,9 @@ func (sw *SlidingWindow) Add(data any) {
 			return // unplaceable event: drop instead of fake wall-clock time
 		}
 		if sw.watermark != nil {
+			if sw.watermark.IsFarFuture(eventTime) {
+				return // corrupt timestamp: never changes a result (nor pins the first window)
+			}
 			sw.watermark.UpdateEventTime(eventTime)
 		}
 	} else if !tsOk {
